@@ -116,7 +116,7 @@ def build(stmt):
                     mapvars={n: (f, p.__dict__[n]) for n, f in MAPVARS.items()},
                     hashvars={n: (f, getattr(P, n).count) for n, f in HASHVARS.items()},
                     map_size=ns["amap"].size, frame_bottom=P.stack,
-                    dict_sizes=(Key.stack, Value.stack))
+                    dict_sizes=(Key.stack, Value.stack), dict_classes=(Key, Value))
         return info
     finally:
         am.create_map, am.mmap, hm.create_map = saved
